@@ -1,5 +1,5 @@
 """C18 CSV and TOON text round-trip - quote-trigger set vs parser special set; quote escaping inverse."""
-from .. import frontend as F, ast as A, cfg as C, util as U, peval as P, guards as G
+from .. import frontend as F, ast as A, cfg as C, util as U, peval as P, guards as G, scanner as S
 
 EXPLANATION = ('(R18.1) CSV: the set of characters that trigger quoting under quote_style minimal (targets of the find() calls in the '
                'quoting condition of csv_encoder::write_string_value) contains every character the parser treats specially inside an '
@@ -11,8 +11,11 @@ EXPLANATION += (' (R18.3) TOON: whatever the quoted-string writer called by enco
                 'partially evaluated for every escape letter); (R18.4) the encoder unquoted-safety predicate rejects every string the reader '
                 'would not return unchanged: the structural characters the reader searches for outside quotes, a leading quote, the literal words '
                 'the reader turns into true/false/null, anything is_number() accepts, empty strings and strings with outer white space.')
-NOT_DECIDED = ('table equality after a round trip; column/type inference; for TOON: equality of the two number recognisers (encoder is_number, '
-               'reader number scanner), indentation and array-header layout')
+EXPLANATION += (' (R18.10) TOON numbers: the language of the reader number scanner is included in the strings the encoder quotes '
+                '(is_number accepts, or is_unquoted_safe rejects the first character / the empty string): reachable product of the two '
+                'scanner automata extracted from the loops.')
+NOT_DECIDED = ('table equality after a round trip; column/type inference; for TOON: the numeric value of a token both sides take as a number, '
+               'indentation and array-header layout')
 
 def run(chk, tier, only_rule=None):
     chk.explanation = EXPLANATION
@@ -262,6 +265,93 @@ def reader_escape_table(chk, facts):
         if stores and not rejects: table[x] = stores[0].args[0] & 0xff
     return fn, table
 
+def r18_10(chk, facts, ufn, rejected, empty_rejected, front_rejected):
+    """Language inclusion between the reader's number scanner and the encoder's number recogniser (engine E10)."""
+    chk.rule('R18.10', 'TOON number recognisers: every token that the reader number scanner (the state loop of parse_primitive) lets through as '
+                       'numeric is a token the encoder never writes for a string: is_number() accepts it, or is_unquoted_safe rejects it '
+                       'for its first character or for being empty.  Decided on the reachable product of the two scanner automata, both '
+                       'extracted from the source (one abstract evaluation of the loop body per configuration and character class)', floor=12)
+    enc = [f for f in facts.functions if f['n'] == 'is_number' and f['file'].endswith('encode_toon.hpp') and f.get('body') is not None and not f.get('dep')]
+    rd = [f for f in facts.functions if f['n'] == 'parse_primitive' and f['file'].endswith('toon_reader.hpp') and f.get('body') is not None and not f.get('dep')]
+    chk.require(enc and rd, 'toon is_number / parse_primitive not found')
+    enc, rd = enc[0], rd[0]
+    chk.analysed(enc); chk.analysed(rd)
+    ie, ir = S.find_scanner_loop(enc), S.find_scanner_loop(rd)
+    chk.require(ie is not None, 'is_number: scanner loop (index < size, switch over a state) not found')
+    chk.require(ir is not None, 'parse_primitive: number scanner loop not found')
+    # is_unquoted_safe must be the caller of the recogniser on the whole string
+    try:
+        SE, SR = S.Scanner(enc, ie), S.Scanner(rd, ir)
+        flag = None
+        for y in A.walk(SR.loop['cond']):
+            if y.get('k') == 'UnaryOperator' and y.get('op') == '!':
+                s_ = A.strip(y.get('sub'), casts=True)
+                if s_ is not None and s_.get('k') == 'DeclRefExpr': flag = s_['id']
+        chk.require(flag is not None, 'parse_primitive: the loop condition has no `!flag` conjunct (the not-a-number flag)')
+        def at(st):
+            if st.get('k') != 'IfStmt': return False
+            c = A.strip(st.get('cond'), casts=True)
+            return c is not None and c.get('k') == 'DeclRefExpr' and c.get('id') == flag
+        # counters are capped at 1: exact only if the scanner region compares them with 0 only
+        region = [SR.loop]
+        for st in SR.block['c'][SR.block['c'].index(SR.loop) + 1:]:
+            if at(st): break
+            region.append(st)
+        badc = SR.check_counter_uses(region) + SE.check_counter_uses([SE.loop])
+        chk.require(not badc, 'number scanner compares a counter with something other than zero: %s' % badc)
+        def va(Sc, r):
+            if r[0] == 'return': raise S.Undecided('parse_primitive returns from inside the number loop')
+            res = Sc.finish(r[1], at)
+            if res[0] != 'at': raise S.Undecided('parse_primitive: `if (%s)` not reached after the loop' % Sc.names.get(flag))
+            v = res[2].get(flag)
+            if not isinstance(v, int): raise S.Undecided('value of the not-a-number flag unknown after the loop')
+            return not v
+        def vb(Sc, r):
+            if r[0] == 'return': return bool(r[1])
+            res = Sc.finish(r[1], None)
+            if res[0] != 'return' or not isinstance(res[1], int): raise S.Undecided('is_number: return value after the loop not decided')
+            return bool(res[1])
+        ks = SE.char_constants() | SR.char_constants()
+        # strings containing a character that is_unquoted_safe rejects anywhere, white space or control characters are quoted for that reason
+        cand = [c for c in range(33, 127) if c not in rejected]
+        sigma = S.alphabet(ks, cand)
+        bad, explored, seen = S.inclusion(SR, SE, sigma, va, vb)
+    except S.Undecided as ex:
+        chk.broken('R18.10: scanner extraction undecided: %s' % ex)
+        return
+    rs = U.enum_value_names(U.enum_by_suffix(facts, '::parse_number_state'))
+    es = U.enum_value_names(U.enum_by_suffix(facts, '::is_number_state'))
+    pairs = {}
+    for st in seen:
+        ka, kb = st[0], st[1]
+        if (ka and ka[0] == 'done') or (kb and kb[0] == 'done'): continue
+        pairs.setdefault((rs.get(SR.state_of(ka), '?'), es.get(SE.state_of(kb), '?')), 0)
+        pairs[(rs.get(SR.state_of(ka), '?'), es.get(SE.state_of(kb), '?'))] += 1
+    chk.note('R18.10: alphabet classes %s; %d product configurations explored; %d reader and %d encoder loop-body evaluations; excluded: empty=%s, first character in %s' % (
+        [chr(c) for c in sigma], explored, SR.steps, SE.steps, empty_rejected, sorted(chr(c) for c in front_rejected)))
+    def excluded(word, first):
+        if word == '' and first is None: return empty_rejected
+        return first in front_rejected
+    real = [b for b in bad if not excluded(b[0], b[3])]
+    words = sorted(set(b[0] for b in real), key=lambda w: (len(w), w))
+    for (r, e), n in sorted(pairs.items()):
+        chk.ok('R18.10', U.site(rd, 'reader state %s with encoder state %s' % (r, e)), {'configurations': n})
+    groups = {}
+    for b in sorted(real, key=lambda b: (len(b[0]), b[0])):
+        groups.setdefault((b[1], b[2]), []).append(b)
+    def nm(desc, table):
+        import re as _re
+        m = _re.search(r'state=(\d+)', desc)
+        return table.get(int(m.group(1)), m.group(1)) if m else desc
+    for (da, db), bs in sorted(groups.items(), key=lambda kv: (len(kv[1][0][0]), kv[1][0][0]))[:12]:
+        b = bs[0]; w = b[0]
+        chk.fail('R18.10', U.site(rd, 'reader stops in %s (%s), encoder in %s' % (nm(da, rs), ' '.join(x for x in da.split() if not x.startswith('state=') and not x.endswith('=0') and not x.endswith('=False')), nm(db, es))),
+                 rd['file'], SR.loop.get('l'),
+                 'the string "%s"%s is written unquoted (is_number() rejects it, final state %s) but the reader number scanner does not reject it (final state %s): '
+                 'unless both numeric conversions then fail it comes back as a number, not as the string.  Same shape: %s' % (
+                     w, '' if b[4] else ' (with any continuation)', nm(db, es), nm(da, rs), ', '.join('"%s"' % x[0] for x in bs[1:6]) or '-'),
+                 {'word': w, 'reader': da, 'encoder': db, 'other_words': words[:40]}, rd['q'])
+
 def toon_rules(chk, tier):
     facts = F.load(['toon'], tier)
     chk.rule('R18.3', 'TOON escapes: every character the quoted-string writer emits (raw or as backslash + letter) is read back to the same '
@@ -380,12 +470,18 @@ def toon_rules(chk, tier):
     # number / empty / outer white space: return false under each
     g = C.CFG(ufn['body'])
     need = {'is_number': False, 'empty': False, 'front-space': False, 'back-space': False}
+    front_rejected = set()      # characters c with `if (str.front() == c) return false`
     for nd in g.rpo:
         if nd.kind != 'cond': continue
         te = [e for e in nd.succ if e.label is True]
         if not te: continue
         rets = [x for x in G.block_after(te[0]) if x.kind == 'return' and A.const(x.ast.get('val')) == 0] if hasattr(G, 'block_after') else []
         if not rets: continue
+        for y in A.walk(nd.ast):
+            cmp_ = G.comparison(y) if y.get('k') == 'BinaryOperator' else None
+            if cmp_ and cmp_[0] == '==' and A.const(cmp_[2]) is not None and A.strip(nd.ast, casts=True) is y:
+                l = A.strip(cmp_[1], casts=True)
+                if l is not None and l.get('k') == 'CXXMemberCallExpr' and A.callee_name(l) == 'front': front_rejected.add(A.const(cmp_[2]))
         for call in A.calls_in(nd.ast):
             cn = A.callee_name(call)
             if cn == 'is_number': need['is_number'] = True
@@ -398,6 +494,7 @@ def toon_rules(chk, tier):
         site = U.site(ufn, 'rejects %s' % k)
         if v: chk.ok('R18.4', site, None)
         else: chk.fail('R18.4', site, ufn['file'], ufn['l'], 'is_unquoted_safe has no `return false` under the %s test; the reader would not return such a string unchanged' % k, None, ufn['q'])
+    r18_10(chk, facts, ufn, rejected, need['empty'], front_rejected)
     # encode_string writes raw only under is_unquoted_safe
     for fn in U.one_per_inst([f for f in facts.functions if f['n'] == 'encode_string' and f['file'].endswith('encode_toon.hpp') and f.get('body') is not None and not f.get('dep')]):
         g2 = C.CFG(fn['body'])
